@@ -29,6 +29,8 @@ ASSUMPTIONS = [
     'uncompressed size = length of the decompressed file found on disk after the save (reference-side)',
     'which Manifests a save rewrote is observed through sys.addaudithook open-for-write events',
     'Manifests not rewritten by an unforced save are DONT_CARE; old-ebuild package Manifests are judged under C19',
+    'unsupported target formats (zip, GZ, "gz ", empty string): the save must refuse with a library exception and leave '
+    'every Manifest file untouched, or leave a state that satisfies all the usual predicates',
     'W1 watermark/format source: arguments of save_manifests() / constructor only / constructor with conflicting values '
     'plus explicit save arguments (the explicit ones are the watermark of that save)',
 ]
@@ -231,6 +233,20 @@ def check_W(case, scratch, stats=None):
         if stats is not None:
             stats.evaluations += 1
             stats.transitions += 1
+        if step['fmt'] in BAD_FORMATS:
+            # unsupported target format: a refusal by a library exception with nothing written, or - when nothing
+            # would have been compressed anyway - any outcome that satisfies the usual predicates below
+            if stats is not None:
+                stats.counters['W_bad_format_saves'] += 1
+            if o['kind'] == 'exc':
+                if o.get('class') != 'gemato':
+                    viol('bad_format_internal_error', gem.brief(o), i, exc=o.get('exc'))
+                elif manifest_files(root) != before:
+                    viol('bad_format_refused_after_writing', f'{gem.brief(o)}', i)
+                if stats is not None:
+                    stats.compared += 1
+                    stats.outcomes['W/bad_format/refused'] += 1
+                break
         if not (o['kind'] == 'ret'):
             viol('save_failed', gem.brief(o) + ' ' + str(o.get('msg') or o.get('path')), i, exc=o.get('exc'))
             break
@@ -310,6 +326,9 @@ def replay(case, scratch):
     return check_W(case, scratch)
 
 
+# target formats that are NOT supported: the save must refuse them with a library exception and write nothing - going
+# ahead would store Manifests at / above the watermark uncompressed under a name with a meaningless suffix
+BAD_FORMATS = ('zip', 'GZ', 'gz ', '')
 STARTS = [(None, None, None), ('gz', 'gz', 'gz'), ('bz2', None, 'xz'), (None, 'lzma', None), ('xz', 'gz', None)]
 
 
@@ -325,7 +344,7 @@ def sizes_for(start, pad=0, chain=False):
 def shards(tier, seed):
     out = [('T', mut, cd) for mut in MUTS for cd in COMPS]
     for si in range(len(STARTS)):
-        for fmt in ('gz', 'bz2', 'lzma', 'xz'):
+        for fmt in ('gz', 'bz2', 'lzma', 'xz') + (BAD_FORMATS if si < 2 else ()):
             out.append(('W1', si, fmt))
     for si in range(len(STARTS)):
         for first in range(6):
